@@ -451,6 +451,7 @@ type Contract struct {
 	Ensures   []Clause
 	Loops     map[int][]Clause
 	Decreases map[int]Clause
+	IterEnsures map[int][]Clause
 	NoPanic   bool
 	Trusted   bool
 	Modifies  *ModSpec
@@ -584,6 +585,14 @@ func ParseSpecFile(path, text, pkg string) (*SpecFile, error) {
 				j := strings.Index(r3, "]")
 				lab = r3[1:j]
 				r3 = strings.TrimSpace(r3[j+1:])
+			} else if strings.HasPrefix(w3, "iterensures[") {
+				j := strings.Index(w3, "]")
+				lab = w3[len("iterensures["):j]
+				w3 = "iterensures"
+			} else if strings.HasPrefix(r3, "[") && w3 == "iterensures" {
+				j := strings.Index(r3, "]")
+				lab = r3[1:j]
+				r3 = strings.TrimSpace(r3[j+1:])
 			}
 			e, err := ParseSpecExpr(r3)
 			if err != nil {
@@ -595,6 +604,16 @@ func ParseSpecFile(path, text, pkg string) (*SpecFile, error) {
 					lab = fmt.Sprintf("i%d", len(cur.Loops[n])+1)
 				}
 				cur.Loops[n] = append(cur.Loops[n], Clause{Label: lab, Expr: e, Src: "invariant " + r3})
+			case "iterensures":
+				// holds at the end of every iteration (checked at the back edge only; the body's
+				// local variables are in scope) - not assumed at the loop head
+				if lab == "" {
+					lab = fmt.Sprintf("t%d", len(cur.IterEnsures[n])+1)
+				}
+				if cur.IterEnsures == nil {
+					cur.IterEnsures = map[int][]Clause{}
+				}
+				cur.IterEnsures[n] = append(cur.IterEnsures[n], Clause{Label: lab, Expr: e, Src: "iterensures " + r3})
 			case "decreases":
 				cur.Decreases[n] = Clause{Label: "dec", Expr: e, Src: "decreases " + r3}
 			default:
